@@ -22,12 +22,17 @@ THEOREMS = ['Vakt.C09.decode_no_uid_refused', 'Vakt.C09.decode_type_ignored', 'V
             'Vakt.C09.rule_classes_distinct', 'Vakt.C09.rule_roundtrip', 'Vakt.C09.rule_meaning_preserved',
             'Vakt.C09.elem_roundtrip', 'Vakt.C09.policy_roundtrip', 'Vakt.C09.policy_meaning_preserved',
             'Vakt.C09.stored_type_irrelevant',
-            'Vakt.C09.codec_probes_ok']
-EXTRA_IMPORTS = ['Props.C09Codec']
+            'Vakt.C09.codec_probes_ok',
+            'Vakt.C09.mongo_roundtrip', 'Vakt.C09.mongo_id_is_uid', 'Vakt.C09.mongo_update_roundtrip',
+            'Vakt.C09.mongo_compile_failure', 'Vakt.C09.sql_roundtrip', 'Vakt.C09.sql_roundtrip_exact',
+            'Vakt.C09.sql_meaning_preserved', 'Vakt.C09.sql_int_uid_comes_back_as_text', 'Vakt.C09.sql_compile_failure']
+EXTRA_IMPORTS = ['Props.C09Codec', 'Props.C09Storage']
 FLOOR = {'quick': 300, 'thorough': 5000}
 ASSUMPTIONS = ['the codec theorems (rule_roundtrip, policy_roundtrip) are about the JSON text jsonpickle writes, as modelled in '
-               'RuleCodec and compared with the real text on every run; pickle, SQLAlchemy rows and the client fakes are '
-               'judged by the direct oracle (meaning compared on derived probe inquiries), not modelled',
+               'RuleCodec and compared with the real text on every run; the Mongo document and the SQL row layers on top of '
+               'that text (compiled-regex arrays, _id, $set update, typed child rows, Boolean effect, textual uid) are '
+               'modelled in StorageCodec, proved to read back what was written, and compared with what the storages really '
+               'keep (fake Mongo client, SQLite); pickle and the Redis fake are judged by the direct oracle only',
                'Policy subclasses with custom tags lose their class through SQL / Mongo / Redis-JSON by construction of '
                'those paths and are outside the domain']
 PATHS = ['json', 'pickle', 'sqlite', 'redis-json', 'redis-pickle', 'mongo', 'mongo40',
@@ -254,6 +259,7 @@ def run(ctx):
                                 'matching_rows': sum(1 for r in m0 if all(x is True for x in r))})
     _decoding_clauses(ctx, out, rng)
     _codec_correspondence(ctx, out, rng)
+    _storage_codec_correspondence(ctx, out, rng)
     out.rule = ('policies aimed at a probe inquiry (string- and rule-based, nested compositions, tuples, sets, regex rules, '
                 'non-ASCII text, the same rule instance / list object used in several places, tuple-valued fields) pushed '
                 'through JSON text, pickle, SQL rows on SQLite, fake-Redis with both serializers and fake-Mongo (4.0 / 4.4) '
@@ -375,6 +381,135 @@ def _codec_correspondence(ctx, out, rng):
                         'Vakt.C09.policy_roundtrip / rule_roundtrip (codec model vs jsonpickle)', line=lines[4 * i])
             f.signature = 'codec:' + kind
             f.weak = True           # the JSON text itself is not prescribed by the property, only what is read back
+            out.failures.append(f)
+
+
+def _sql_raw_row(st, uid):
+    """the stored row and child rows of one policy, as plain data (JSON columns decoded once more: vakt stores JSON text)"""
+    from vakt.storage.sql.model import PolicyModel
+    st.session.expire_all()
+    ms = [m for m in st.session.query(PolicyModel).all() if m.uid == uid or m.uid == str(uid)]
+    if len(ms) != 1:
+        return None
+    m = ms[0]
+
+    def child(rows, name):
+        return [[None if getattr(x, name) is None else _sort_sets_json(json.loads(getattr(x, name))),
+                 getattr(x, name + '_string'), getattr(x, name + '_regex')] for x in rows]
+    return {'uid': m.uid, 'type': m.type, 'description': m.description, 'effect': bool(m.effect),
+            'context': _sort_sets_json(json.loads(m.context)), 'subjects': child(m.subjects, 'subject'),
+            'resources': child(m.resources, 'resource'), 'actions': child(m.actions, 'action')}
+
+
+def _storage_codec_correspondence(ctx, out, rng):
+    """the model's storage codecs (StorageCodec.mongoDoc / setAll / fromMongoDoc, toRow / toPolicy, compileText) against
+    what MongoStorage and SQLStorage really keep: MONGODOC - the document after add; MONGOUPD - the document after add of
+    another policy and update to this one ($set keeps what the old document had); MONGOREAD - the model's reading of
+    that real document; SQLROW / SQLREAD - the same for the row and child rows; the *_compiled_regex / *_regex texts are
+    part of the comparison.  A weak tie: the stored representation is not prescribed by the property."""
+    lines, meta = [], []
+
+    def canon_line(v):
+        return 'CANON ' + proto.enc_value(v)
+
+    for _ in range(ctx.budget(120, 3000)):
+        p, _qs = aimed_case(rng)
+        p0, _q0 = aimed_case(rng)
+        p0['uid'] = p['uid']
+        if rng.random() < 0.3:
+            # a tagged element that does not compile: both storages must refuse the whole mutation
+            fld = pick(rng, ['subjects', 'resources', 'actions'])
+            if p[fld] and p[fld][0][0] == 'S':
+                p[fld] = list(p[fld]) + [('S', pick(rng, ['a<b', 'x<(>y', '<a>>', '<[>', 'ok<.*>', '<a|b>-<\\d+>']))]
+        try:
+            p, p0 = _sort_sets_policy(p), _sort_sets_policy(p0)
+            obj, obj0 = proto.build_policy(p), proto.build_policy(p0)
+            pl, pl0 = polcase.pol_line(p, obj), polcase.pol_line(p0, obj0)
+        except (_Dup, proto.ProtoError, TypeError):
+            out.count('storage-codec:skipped')
+            continue
+        except Exception:
+            out.count('storage-codec:unconstructible')
+            continue
+        norm = dict(p, uid=str(obj.uid) if isinstance(obj.uid, int) and not isinstance(obj.uid, bool) else obj.uid,
+                    effect='allow' if obj.effect == 'allow' else 'deny')
+        try:
+            echo_same = 'ECHO pol ' + polcase.pol_line(p, obj)
+            echo_norm = 'ECHO pol ' + proto.enc_policy(norm)
+        except proto.ProtoError:
+            continue
+        # ---- Mongo
+        for upd in (False, True):
+            st = stores.make_base('mongo')
+            try:
+                if upd:
+                    st.add(obj0)
+                    st.update(obj)
+                else:
+                    st.add(obj)
+                raw = st.collection.find_one({'_id': obj.uid})
+                raw = None if raw is None else _sort_sets_json(raw)
+                status = 'stored'
+            except (InvalidPatternError, re.error):
+                raw, status = None, 'refused'
+            except Exception as e:
+                raw, status = None, 'raised %s' % type(e).__name__
+            try:
+                if raw is not None:
+                    lines += [('MONGOUPD %s %s' % (pl0, pl)) if upd else ('MONGODOC ' + pl), canon_line(raw),
+                              'MONGOREAD 60 62 ' + proto.enc_value(raw), echo_same]
+                else:
+                    lines += [('MONGOUPD %s %s' % (pl0, pl)) if upd else ('MONGODOC ' + pl), 'ECHO val N', 'ECHO val N', 'ECHO val N']
+                meta.append(('mongo-update' if upd else 'mongo', repr(p), status, _jkey(raw)[:500] if raw is not None else None))
+            except proto.ProtoError:
+                out.count('storage-codec:skipped')
+        # ---- SQL
+        st = stores.make_base('sqlite')
+        try:
+            st.add(obj)
+            raw = _sql_raw_row(st, obj.uid)
+            status = 'stored'
+        except (InvalidPatternError, re.error):
+            raw, status = None, 'refused'
+        except Exception as e:
+            raw, status = None, 'raised %s' % type(e).__name__
+        try:
+            if raw is not None:
+                lines += ['SQLROW ' + pl, canon_line(raw), 'SQLREAD 60 62 ' + proto.enc_value(raw), echo_norm]
+            else:
+                lines += ['SQLROW ' + pl, 'ECHO val N', 'ECHO val N', 'ECHO val N']
+            meta.append(('sql', repr(p), status, _jkey(raw)[:500] if raw is not None else None))
+        except proto.ProtoError:
+            out.count('storage-codec:skipped')
+    res = ctx.driver.run(lines) if ctx.driver else []
+    for i, (kind, spec, status, doc) in enumerate(meta):
+        if not res:
+            break
+        enc, canon, dec, echo = res[4 * i: 4 * i + 4]
+        if 'bad-op' in (enc, canon, dec, echo):
+            raise Broken('driver rejected a storage codec line: %s' % lines[4 * i + [enc, canon, dec, echo].index('bad-op')][:300])
+        out.evaluations += 1
+        out.count('storage-codec:%s:%s' % (kind, status.split(' ')[0]))
+        if enc == 'unmodelled':
+            out.unmodelled += 1
+            continue
+        out.traces += 1
+        why = None
+        if status != 'stored':
+            if enc != 'refused':
+                why = 'vakt: the mutation %s; the model writes %s' % (status, enc[:300])
+        elif enc == 'refused':
+            why = 'the model refuses the policy (a tagged element does not compile); vakt stored %s' % (doc or '')[:300]
+        elif enc != canon:
+            why = 'the model keeps %s, vakt keeps %s' % (enc[:400], canon[:400])
+        elif dec == 'none' or dec.split(' ', 1)[1] != echo.split(' ', 2)[2]:
+            why = 'the model reads what vakt stored as %s, expected %s' % (dec[:300], echo[:300])
+        if why:
+            f = Failure('disagreement', {'kind': kind, 'spec': spec, 'stored': doc, 'status': status}, doc, enc[:400], why,
+                        'Vakt.C09.mongo_roundtrip / mongo_update_roundtrip / sql_roundtrip (storage codec model vs the storages)',
+                        line=lines[4 * i])
+            f.signature = 'storage-codec:' + kind
+            f.weak = True           # the stored representation is not prescribed by the property, only what is read back
             out.failures.append(f)
 
 
